@@ -464,6 +464,8 @@ class Interp:
             return TRUE
         if isinstance(v, Op) and v.op == "flagval":
             return not_(compare("eq", v.args[1], Const(0)))
+        if isinstance(v, Op) and v.op == "bool":
+            return self.truth(v.args[0])
         t = truthy(v)
         if t is None:
             if isinstance(v, Ite):
@@ -984,6 +986,9 @@ class _ExprMixin:
                 return Const(r if op == "in" else not r)
             if isinstance(b2, Ref):
                 o = self.heap[b2.oid]
+                if isinstance(o, Instance) and getattr(o, "cls", None) is not None and isinstance(self.class_attr(o.cls, "__contains__"), FuncV):
+                    r = self.truth(self.call_value(FuncV(self.class_attr(o.cls, "__contains__").info, b2), [a], {}, None))
+                    return r if op == "in" else not_(r)
                 if isinstance(o, DictObj) and o.concrete() and isinstance(a, Const):
                     r = any(k == a for k, _, _, _ in o.entries)
                     return Const(r if op == "in" else not r)
@@ -1113,7 +1118,8 @@ class _ExprMixin:
                     raise AnalysisError("dict display with ** of a non-dictionary value (line %s)" % getattr(n, "lineno", "?"))
                 d.entries.extend(so.entries)
                 continue
-            d.entries.append((self.ev(k), self.ev(v), TRUE, ()))
+            # (a member of an IntEnum is its integer as a dictionary key: it hashes and compares like it)
+            d.entries.append((self.int_enum_value(self.ev(k)), self.ev(v), TRUE, ()))
         return self.alloc(d)
 
     def ev_Subscript(self, n):
@@ -1160,6 +1166,10 @@ class _ExprMixin:
 
     def getitem(self, base, idx, node=None):
         base = self.simp(base)
+        if isinstance(base, Ref):
+            o_ = self.heap.get(base.oid)
+            if isinstance(o_, Instance) and getattr(o_, "cls", None) is not None and isinstance(self.class_attr(o_.cls, "__getitem__"), FuncV):
+                return self.call_value(FuncV(self.class_attr(o_.cls, "__getitem__").info, base), [idx], {}, node)
         if isinstance(idx, Op) and idx.op == "sliceobj":
             return self.getslice(base, idx.args[0], idx.args[1], idx.args[2], node)
         if isinstance(base, Op) and base.op == "attr:args" and base.args and isinstance(base.args[0], Op) and base.args[0].op == "excobj" \
@@ -1457,6 +1467,10 @@ class _CallMixin:
             f = self.get_attr(recv, name, node)
             if isinstance(f, FuncV):
                 return self.call_value(f, args, kwargs, node)
+        if isinstance(recv, Op) and recv.op == "enum" and name not in ("value", "name"):
+            f = self.get_attr(recv, name, node)
+            if isinstance(f, FuncV):
+                return self.call_value(f, args, kwargs, node)
         if isinstance(recv, Ref):
             o = self.heap[recv.oid]
             if isinstance(o, Instance):
@@ -1481,6 +1495,15 @@ class _CallMixin:
                 return self.list_method(recv, o, name, args, kwargs, node)
             if isinstance(o, DictObj):
                 return self.dict_method(recv, o, name, args, kwargs, node)
+        if isinstance(recv, ClassV) and name == "_make" and len(args) == 1 and not kwargs and \
+                any(b.split(".")[-1] == "NamedTuple" for b in recv.info.bases):
+            # NamedTuple._make(iterable) is the class called with the elements
+            src = self.simp(self.drain(args[0]))
+            els = self.seq_elems(src) or self.concrete_iter(src) or self.groups_elems(src)
+            if els is None:
+                nf = len([st_ for st_ in recv.info.node.body if isinstance(st_, ast.AnnAssign) and isinstance(st_.target, ast.Name)])
+                els = [self.getitem(src, Const(i_), node) for i_ in range(nf)]
+            return self.instantiate(recv.info, list(els), {}, node)
         if isinstance(recv, (ModuleV, ClassV)):
             f = self.get_attr(recv, name, node)
             if isinstance(f, Undef):
@@ -2312,6 +2335,9 @@ class _StmtMixin:
             return
         if isinstance(base, Ref):
             o = self.heap[base.oid]
+            if isinstance(o, Instance) and getattr(o, "cls", None) is not None and isinstance(self.class_attr(o.cls, "__setitem__"), FuncV):
+                self.call_value(FuncV(self.class_attr(o.cls, "__setitem__").info, base), [key, v], {}, node)
+                return
             if isinstance(o, DictObj):
                 self.note_mutation(base, o, "dict[key] = value", node, (v,))
                 g = self.rel_guard(o.born)
@@ -2449,6 +2475,96 @@ class _StmtMixin:
                     raise AnalysisError("match: alternatives that bind names are not modelled (line %s)" % getattr(p, "lineno", "?"))
                 cs.append(c)
             return or_(*cs), []
+        if isinstance(p, ast.MatchSequence) and (any(isinstance(x, ast.MatchStar) for x in p.patterns) or
+                                                 (self.seq_elems(subj) is None and self.groups_elems(self.simp(subj)) is None
+                                                  and not any(isinstance(x, Undef) for x in walk(self.simp(subj))))):
+            # a sequence whose length is not known here (or a pattern with a *rest): the length test is part of the
+            # condition, the elements are addressed by position from the front / from the back
+            sv = self.simp(subj)
+            known = self.seq_elems(sv)
+            stars = [i for i, x in enumerate(p.patterns) if isinstance(x, ast.MatchStar)]
+            nfix = len(p.patterns) - len(stars)
+            ln = Const(len(known)) if known is not None else self.x_len([sv], {}, None)
+            cs = [compare("ge" if stars else "eq", ln, Const(nfix))]
+            if cs[0] == FALSE:
+                return FALSE, []
+            bs = []
+            star_at = stars[0] if stars else len(p.patterns)
+            for i, sub in enumerate(p.patterns):
+                if isinstance(sub, ast.MatchStar):
+                    if sub.name:
+                        hi = NONE if i == len(p.patterns) - 1 else Const(i + 1 - len(p.patterns))
+                        bs.append((sub.name, self.getslice(sv, Const(i), hi, NONE, None)))
+                    continue
+                if known is not None:
+                    el = known[i] if i < star_at else known[i - len(p.patterns)]
+                else:
+                    el = self.getitem(sv, Const(i if i < star_at else i - len(p.patterns)), None)
+                c, b = self.match_pattern(sub, el)
+                cs.append(c)
+                bs += b
+            return and_(*cs), bs
+        if isinstance(p, ast.MatchMapping):
+            sv = self.simp(subj)
+            cs, bs = [], []
+            for k, sub in zip(p.keys, p.patterns):
+                kv = self.ev(k)
+                cs.append(self.cmp("in", kv, sv))
+                c, b = self.match_pattern(sub, self.getitem(sv, kv, None))
+                cs.append(c)
+                bs += b
+            if p.rest:
+                raise AnalysisError("match: **rest in a mapping pattern is not modelled (line %s)" % getattr(p, "lineno", "?"))
+            return and_(*cs), bs
+        if isinstance(p, ast.MatchClass):
+            cv = self.simp(self.ev(p.cls))
+            sv = self.simp(subj)
+            if isinstance(sv, Ite):
+                ca, ba = self.match_pattern(p, sv.a)
+                cb, bb = self.match_pattern(p, sv.b)
+                names = [n_ for n_, _ in ba] or [n_ for n_, _ in bb]
+                da, db = dict(ba), dict(bb)
+                return ite(sv.c, ca, cb), [(n_, ite(sv.c, da.get(n_, Undef()), db.get(n_, Undef()))) for n_ in names]
+            if not isinstance(cv, ClassV):
+                raise AnalysisError("match: class pattern on a class the analysis does not know (line %s)" % getattr(p, "lineno", "?"))
+            o = self.heap.get(sv.oid) if isinstance(sv, Ref) else None
+            ocls = o.cls if isinstance(o, Instance) and getattr(o, "cls", None) is not None else getattr(o, "ntclass", None)
+            if ocls is None:
+                if isinstance(sv, Const) or isinstance(sv, (FuncV, ClassV)) or isinstance(o, (ListObj, DictObj)):
+                    return FALSE, []            # None, a number, a text, a plain container: not an instance of a repository class
+                raise AnalysisError("match: class pattern on a value of unknown type (line %s)" % getattr(p, "lineno", "?"))
+
+            def is_sub(ci, depth=0):
+                if ci is cv.info or ci.qual == cv.info.qual:
+                    return True
+                if depth > 4:
+                    return False
+                for b_ in ci.bases:
+                    bv = self.module_ns(ci.module.name).get(b_.split(".")[0]) if "." not in b_ else None
+                    if isinstance(bv, ClassV) and is_sub(bv.info, depth + 1):
+                        return True
+                return False
+            if not is_sub(ocls):
+                return FALSE, []
+            cs, bs = [TRUE], []
+            if p.patterns:
+                flds = getattr(o, "fields", None)
+                if not flds:
+                    ma = self.class_attr(ocls, "__match_args__")
+                    flds = list(ma.v) if isinstance(ma, Const) and isinstance(ma.v, tuple) else None
+                if not flds:
+                    flds = [st_.target.id for st_ in ocls.node.body if isinstance(st_, ast.AnnAssign) and isinstance(st_.target, ast.Name)] or None
+                if not flds or len(p.patterns) > len(flds):
+                    raise AnalysisError("match: positional class pattern without known __match_args__ (line %s)" % getattr(p, "lineno", "?"))
+                for fname, sub in zip(flds, p.patterns):
+                    c, b = self.match_pattern(sub, self.get_attr(sv, fname, None))
+                    cs.append(c)
+                    bs += b
+            for fname, sub in zip(p.kwd_attrs, p.kwd_patterns):
+                c, b = self.match_pattern(sub, self.get_attr(sv, fname, None))
+                cs.append(c)
+                bs += b
+            return and_(*cs), bs
         if isinstance(p, ast.MatchSequence) and not any(isinstance(x, ast.MatchStar) for x in p.patterns):
             els = self.seq_elems(subj)
             sv = self.simp(subj)
@@ -2469,16 +2585,45 @@ class _StmtMixin:
             return and_(*cs), bs
         raise AnalysisError("match: pattern kind %s is not modelled (line %s)" % (type(p).__name__, getattr(p, "lineno", "?")))
 
-    def st_With(self, st):
-        vals = []
-        for item in st.items:
-            v = self.ev(item.context_expr)
-            vals.append(v)
-            self.event("with_enter", (v,), st)
-            if item.optional_vars is not None:
-                self.assign(item.optional_vars, v, st)
-        self.exec_block(st.body)
-        self.event("with_exit", tuple(vals), st)
+    def st_With(self, st, idx=0, vals=None):
+        vals = [] if vals is None else vals
+        if idx >= len(st.items):
+            self.exec_block(st.body)
+            return
+        item = st.items[idx]
+        v = self.ev(item.context_expr)
+        sv = self.simp(v)
+        if isinstance(sv, GenV) and ("contextmanager" in sv.finfo.deco or "asynccontextmanager" in sv.finfo.deco):
+            # a generator-based context manager: its body runs up to the yield, the with-body runs there (inside whatever
+            # try / with statements surround the yield), then the rest of the generator's body
+            self.event("with_enter", (Op("cm", Const(sv.finfo.qual)),), st)
+
+            def consume(val):
+                if item.optional_vars is not None:
+                    self.assign(item.optional_vars, val, st)
+                self.st_With(st, idx + 1, vals)
+            self.run_generator(sv, consume, st)
+            self.event("with_exit", (Op("cm", Const(sv.finfo.qual)),), st)
+            return
+        if isinstance(sv, Op) and sv.op == "call:contextlib.suppress" and isinstance(item.context_expr, ast.Call):
+            # with suppress(E1, E2): body   is   try: body / except (E1, E2): pass
+            ce = item.context_expr
+            typ = ce.args[0] if len(ce.args) == 1 else ast.Tuple(elts=list(ce.args), ctx=ast.Load())
+            inner = ast.With(items=st.items[idx + 1:], body=st.body) if idx + 1 < len(st.items) else None
+            body = [inner] if inner is not None else st.body
+            tr = ast.Try(body=body, handlers=[ast.ExceptHandler(type=typ, name=None, body=[ast.Pass()])], orelse=[], finalbody=[])
+            for nd in (tr, tr.handlers[0], tr.handlers[0].body[0]) + ((inner,) if inner is not None else ()):
+                ast.copy_location(nd, st)
+            ast.fix_missing_locations(tr)
+            self.st_Try(tr)
+            return
+        vals.append(v)
+        self.event("with_enter", (v,), st)
+        if item.optional_vars is not None:
+            self.assign(item.optional_vars, v, st)
+        self.st_With(st, idx + 1, vals)
+        if idx == 0 or True:
+            self.event("with_exit", (v,), st)
 
     st_AsyncWith = st_With
 
@@ -2515,8 +2660,9 @@ class _StmtMixin:
             prev.append(hc)
             self.guard.append(cond)
             htxt = ast.unparse(h.type) if h.type else None
-            if isinstance(h.type, ast.Name):
-                # `except catch:` where catch is a variable / parameter holding an exception class
+            if isinstance(h.type, ast.Name) or (isinstance(h.type, ast.Attribute) and isinstance(h.type.value, ast.Name) and
+                                                h.type.value.id in ("self", "cls")):
+                # `except catch:` where catch is a variable / parameter / attribute holding an exception class
                 try:
                     self._quiet_unbound = True
                     hv = self.simp(self.ev(h.type))
@@ -2611,6 +2757,10 @@ class _LoopMixin:
             if inner is not None:
                 start = it.args[1].v if len(it.args) > 1 and is_int(it.args[1]) else 0
                 return [self.mk_list([Const(i + start), x], "tuple") for i, x in enumerate(inner)]
+        if isinstance(it, Op) and it.op == "call:itertools.chain" and it.args:
+            inners = [self.concrete_iter(self.simp(a)) for a in it.args]
+            if all(i is not None for i in inners):
+                return [x for i in inners for x in i]
         if isinstance(it, Op) and it.op == "zip":
             inners = [self.concrete_iter(a) for a in it.args]
             if all(i is not None for i in inners):
@@ -3273,6 +3423,11 @@ class _ExtMixin:
         if len(a) > 1 or k:
             return Op("strdecode", a[0], *a[1:], *[Op("kv", Const(x), y) for x, y in sorted(k.items())])
         v0 = self.simp(a[0])
+        from .terms import _boolish
+        if isinstance(v0, Op) and v0.op == "bool":
+            return ite(v0.args[0], Const("True"), Const("False"))
+        if isinstance(v0, (Op, Ite)) and _boolish(v0) and not isinstance(v0, Const):
+            return ite(v0, Const("True"), Const("False"))
         o0 = self.heap.get(v0.oid) if isinstance(v0, Ref) else None
         cls0 = getattr(o0, "ntclass", None) or (o0.cls if isinstance(o0, Instance) else None)
         if cls0 is not None and isinstance(self.class_attr(cls0, "__str__"), FuncV):
@@ -3308,7 +3463,16 @@ class _ExtMixin:
         return Op("ord", a[0])
 
     def x_bool(self, a, k, n):
-        return self.truth(a[0]) if a else FALSE
+        if not a:
+            return FALSE
+        t = self.truth(a[0])
+        from .terms import _boolish
+        if isinstance(t, Const) or _boolish(t):
+            return t
+        if isinstance(t, Lin) or (isinstance(t, Op) and t.op in ("bitand", "bitor", "bitxor", "rshift", "lshift", "int_from_bytes", "len", "mod",
+                                                                 "mul", "add", "sub", "floordiv", "int", "count", "b2i", "max", "min", "abs")):
+            return not_(compare("eq", t, Const(0)))     # the truth value of a number, as a boolean of its own
+        return Op("truthy", t)
 
     def x_repr(self, a, k, n):
         return Op("repr", a[0])
@@ -3466,6 +3630,27 @@ class _ExtMixin:
                 for kx, vx in zip(*cols):
                     self.setitem(ref, kx, vx, n)
                 return
+        els = self.concrete_iter(src)          # enumerate(...) / zip(...) / dict views / chains of known elements
+        if els is not None and len(els) <= 4 * UNROLL_MAX:
+            for e_ in els:
+                store_pair(e_)
+            return
+        if isinstance(src, Op) and src.op in ("call:itertools.chain", "call:itertools.chain.from_iterable"):
+            parts = src.args if src.op == "call:itertools.chain" else (self.concrete_iter(self.simp(src.args[0])) or None)
+            if parts is not None:
+                for part in parts:
+                    self.fill_dict(ref, d, part, n)
+                return
+        if isinstance(src, Ite):
+            # one of two known sources: each under its condition
+            for c_, alt in ((src.c, src.a), (not_(src.c), src.b)):
+                self.guard.append(c_)
+                try:
+                    if self.feasible():
+                        self.fill_dict(ref, d, alt, n)
+                finally:
+                    self.guard.pop()
+            return
         raise AnalysisError("dict() of a value the analysis does not track (%r, line %s)" % (src, getattr(n, "lineno", "?")))
 
     def x_collections_OrderedDict(self, a, k, n):
@@ -4093,7 +4278,20 @@ def _ev_YieldFrom(self, n):
         for e in els:
             self.do_yield(e, n)
         return NONE
-    raise AnalysisError("yield from over a symbolic iterable is not modelled (line %s)" % getattr(n, "lineno", "?"))
+    # any other iterable:  yield from xs  is  for <v> in xs: yield <v>
+    tmp = "<yf%d>" % getattr(n, "lineno", 0)
+    src_name = "<yfsrc%d>" % getattr(n, "lineno", 0)
+    self.frames[-1].env[src_name] = src
+    loop = ast.For(target=ast.Name(id=tmp, ctx=ast.Store()), iter=ast.Name(id=src_name, ctx=ast.Load()),
+                   body=[ast.Expr(value=ast.Yield(value=ast.Name(id=tmp, ctx=ast.Load())))], orelse=[])
+    ast.copy_location(loop, n)
+    ast.fix_missing_locations(loop)
+    try:
+        self.exec_block([loop])
+    finally:
+        self.frames[-1].env.pop(tmp, None)
+        self.frames[-1].env.pop(src_name, None)
+    return NONE
 
 
 def _do_yield(self, v, node):
